@@ -6,6 +6,8 @@ import Mathlib.Tactic.Linarith
 import Mathlib.Algebra.BigOperators.Ring.Finset
 import Mathlib.Algebra.CharZero.Defs
 import Mathlib.Data.Matrix.Basic
+import Mathlib.Logic.Equiv.Fin.Basic
+import Mathlib.Algebra.BigOperators.Fin
 /-! helper lemmas for C19: linearity and moments of the recursive multinomial expectation -/
 open Matrix
 namespace QM.C19
@@ -424,4 +426,53 @@ theorem slice_flatten_uniform {α : Type} (blocks : List (List α)) (m : Nat)
   rw [← this, List.take_left]
 
 end slices
+end QM.C19
+
+/-! ## definitions used in the statements of QProps/C19.lean -/
+namespace QM.C19
+open QM
+
+section statementDefs
+variable {K : Type} [Field K] {m k : Nat}
+
+/-- hypotheses on a list of schedules: distributions sum to one, sample sizes are positive -/
+def Good (l : List (Mat K k m × Vec K m × Nat)) : Prop :=
+  ∀ x ∈ l, (∑ i, x.2.1.get i = 1) ∧ 1 ≤ x.2.2
+
+
+/-- exact mean squared error of all empirical distributions: `Σ_s E‖f_s − p_s‖²` -/
+def mseEmpiExactTotal : List (Vec K m × Nat) → K
+  | [] => 0
+  | (p, n) :: r => mseEmpiExact p n + mseEmpiExactTotal r
+
+
+/-- the element a POVM with `on_para_eq_constraint=True` does not store: `c − Σ_k E_k` (`c` = coefficient vector of
+the identity) -/
+def lastElem {K : Type} [Field K] (d2 mo : Nat) (c : Vec K d2) (v : Vec K ((mo - 1) * d2)) : Vec K d2 :=
+  Vec.ofFn fun a => c.get a - ∑ k : Fin (mo - 1), v.get (finProdFinEquiv (k, a))
+
+
+end statementDefs
+end QM.C19
+
+namespace QM.C19
+open QM
+section listSums
+variable {K : Type} [Field K]
+
+theorem lsum_zip_ofFn {α β : Type} {m : Nat} (f : Fin m → α) (g : Fin m → β) (h : α × β → K) :
+    lsum (((List.ofFn f).zip (List.ofFn g)).map h) = ∑ i, h (f i, g i) := by
+  induction m with
+  | zero => simp [lsum]
+  | succ m ih =>
+    rw [List.ofFn_succ, List.ofFn_succ, List.zip_cons_cons, List.map_cons, Fin.sum_univ_succ]
+    have := ih (fun i => f i.succ) (fun i => g i.succ)
+    simp only [lsum, List.foldr_cons] at this ⊢
+    rw [this]
+
+
+/-- scaled matrix `w · F` (rows) -/
+def scaleRows (w : K) (F : List (List K)) : List (List K) := F.map fun r => r.map fun x => w * x
+
+end listSums
 end QM.C19
